@@ -16,6 +16,10 @@ type checkDef struct {
 	fn    checkFn
 }
 
+// multiArch: checks whose verdict depends on the width of int are re-decided for GOARCH=386 in
+// the thorough tier.
+var multiArch = map[string]bool{}
+
 var checks = map[string]checkDef{}
 
 func register(id, level string, fn checkFn) { checks[id] = checkDef{level, fn} }
@@ -80,6 +84,15 @@ func realMain() (code int) {
 	rep := newReport(id, def.level, *tier, prog)
 	rep.NoWrite = *noWrite
 	def.fn(prog, rep)
+	if *tier == "thorough" && multiArch[id] && *arch == "amd64" {
+		p386 := loadProgram(*repo, "386")
+		rep.prog = p386
+		rep.KeyPrefix = "386/"
+		def.fn(p386, rep)
+		rep.KeyPrefix = ""
+		rep.prog = prog
+		rep.Extra["also_analysed_goarch"] = "386"
+	}
 	if *tier == "thorough" && !*noWrite {
 		results, ok := runControls(id, *repo, vdir)
 		rep.Extra["positive_controls"] = results
